@@ -436,14 +436,13 @@ Example C16_example_value_numbers :
 Proof. exact ValueProofs.value_example_numbers. Qed.
 Print Assumptions C16_example_value_numbers.
 
-(* ---- single-site operator (partial; TTNDO/ValueTP.v) ---------------------------------------------------------------- *)
+(* ---- single-site operator: the two halves (TTNDO/ValueTP.v); joined in C16_tp1_value below ------------------------------ *)
 From PTN Require TEBD.Trotter TTNDO.ValueTP.
 
 (* absorb_into_open_legs at the ket image of ANY node c of the state keeps the network a well-formed density-operator
-   network, hence trace_ttndo succeeds on it and closes it, for every tree and every root bond dimension.  PARTIAL with
-   respect to "single-site expectation value on the network = pure-state value": the value-level renaming step of
-   C16_trace_value with the operator atom and the redirected glue at c is missing (C16_tp1_state_value_partial below
-   is the pure-state half). *)
+   network, hence trace_ttndo succeeds on it and closes it, for every tree and every root bond dimension.  Named
+   _partial because it is one HALF of "single-site expectation value on the network = pure-state value"
+   (C16_tp1_state_value_partial below is the pure-state half); the halves are joined in C16_tp1_value. *)
 Theorem C16_tp1_absorbed_closed_partial : forall (im : Contr.idmaps) (d s : Store.store) (r0 : nat) (ts : Closed.rt) (k : nat),
   Value.ttndo_of im d s r0 ts k ->
   forall c : nat, In c (Closed.rnodes ts) ->
@@ -478,3 +477,79 @@ Theorem C16_tp1_state_value_partial : forall (R : Type) (zero one : R) (add mul 
                         (Sem.atoms_val R one mul (Value.tp1_wiresS woff aoff s c) tbl [Store.next_atom s] r)) rho.
 Proof. exact ValueTP.S_value_tp1. Qed.
 Print Assumptions C16_tp1_state_value_partial.
+
+(* ---- single-site operator: the two halves joined (TTNDO/ValueTP1.v) -------------------------------------------------- *)
+From PTN Require TTNDO.ValueTP1.
+
+(* TTNDO.tensor_product_expectation_value with ONE factor (absorb_into_open_legs at the ket image of c, then trace():
+   ValueTP1.ttndo_tp_expectation) against C04's pure-state <psi|O_c|psi> diagram (TensorProd.tp_expectation):
+   for every well-formed state store s with one open leg per node, every tree, every root bond dimension k >= 1, every
+   node c and every operator atom of shape (dd, dd), dd the physical dimension of c, every commutative semiring and
+   every pair of atom tables satisfying the build contracts and holding the SAME operator matrix on the operator atom
+   (next_atom d in the world of the network, next_atom s in the world of the state): the absorption is accepted, both
+   contractions succeed with closed diagrams, and the two diagrams have the same value.  The worlds: the network after
+   the absorption (its own atom table and dimensions); the state's pair world extended by the operator atom on
+   (output wire next_wire s, open wire of c) (Value.tp1_wiresS / tp1_dimS). *)
+Theorem C16_tp1_value : forall (R : Type) (zero one : R) (add mul : R -> R -> R),
+  Sem.comm_semiring zero one add mul ->
+  forall (woff aoff : nat) (im : Contr.idmaps) (d s : Store.store) (r0 : nat) (ts : Closed.rt) (k : nat)
+         (tblD tblS : nat -> list nat -> R),
+  InvSem.wfs s -> TensorProdBridge.one_open s -> Store.next_wire s + 2 <= woff -> Store.next_atom s < aoff ->
+  Closed.ket_tree s = Some ts -> 1 <= k ->
+  Value.ttndo_of im d s r0 ts k ->
+  Value.build_contracts R zero one add mul woff aoff im d s r0 ts k tblD tblS ->
+  forall (c dd : nat), In c (Closed.rnodes ts) -> dd = Store.wdim s (Closed.open_wire s c) ->
+  (forall i j, i < dd -> j < dd -> tblD (Store.next_atom d) [i; j] = tblS (Store.next_atom s) [i; j]) ->
+  exists D' gD gS,
+    ValueTP1.ttndo_tp_apply im d [(c, [dd; dd])] = Some D' /\
+    ValueTP1.ttndo_tp_expectation im d [(c, [dd; dd])] = Some gD /\
+    TensorProd.tp_expectation woff aoff s [(c, [dd; dd])] = Some gS /\
+    Blocks.gaxes gD = [] /\ Blocks.gaxes gS = [] /\
+    forall rho rho',
+      TensorProdBridge.gvalue R zero one add mul (Sem.atom_wires D') (Store.wdim D') tblD gD rho
+      = TensorProdBridge.gvalue R zero one add mul (Value.tp1_wiresS woff aoff s c) (Value.tp1_dimS woff aoff s c) tblS gS rho'.
+Proof. exact ValueTP1.tp1_value. Qed.
+Print Assumptions C16_tp1_value.
+
+(* the same with every structural hypothesis in executable form *)
+Theorem C16_tp1_value_checked : forall (R : Type) (zero one : R) (add mul : R -> R -> R),
+  Sem.comm_semiring zero one add mul ->
+  forall (woff aoff : nat) (im : Contr.idmaps) (d s : Store.store) (r0 : nat) (k : nat) (tblD tblS : nat -> list nat -> R),
+  Value.value_hyp woff aoff im d s r0 k = true -> Store.next_wire s + 2 <= woff -> Store.next_atom s < aoff ->
+  (forall ts, Closed.ket_tree s = Some ts -> Value.build_contracts R zero one add mul woff aoff im d s r0 ts k tblD tblS) ->
+  forall (c dd : nat), In c (Store.akeys (Store.nodes s)) -> dd = Store.wdim s (Closed.open_wire s c) ->
+  (forall i j, i < dd -> j < dd -> tblD (Store.next_atom d) [i; j] = tblS (Store.next_atom s) [i; j]) ->
+  exists D' gD gS,
+    ValueTP1.ttndo_tp_apply im d [(c, [dd; dd])] = Some D' /\
+    ValueTP1.ttndo_tp_expectation im d [(c, [dd; dd])] = Some gD /\
+    TensorProd.tp_expectation woff aoff s [(c, [dd; dd])] = Some gS /\
+    Blocks.gaxes gD = [] /\ Blocks.gaxes gS = [] /\
+    forall rho rho',
+      TensorProdBridge.gvalue R zero one add mul (Sem.atom_wires D') (Store.wdim D') tblD gD rho
+      = TensorProdBridge.gvalue R zero one add mul (Value.tp1_wiresS woff aoff s c) (Value.tp1_dimS woff aoff s c) tblS gS rho'.
+Proof. exact ValueTP1.tp1_value_b. Qed.
+Print Assumptions C16_tp1_value_checked.
+
+(* non-vacuity: the four-node tree of C16_example_value; the operator atom (4 in the world of the state, 9 in the world
+   of the network) carries the same NON-symmetric integer matrix in both tables; on the inner node 1 (physical dimension
+   2, k = 2) and on the leaf 2 (physical dimension 3, k = 1) both diagrams evaluate (vm_compute) to the same number *)
+Example C16_example_tp1_numbers :
+  (Store.next_atom Value.vx_s, Store.next_atom (Value.vx_d 2)) = (4, 9) /\
+  map ValueTP1.vx_opdim [0; 1; 2; 3] = [2; 2; 3; 3] /\
+  (Value.vx_tblS 4 [0; 1], Value.vx_tblS 4 [1; 0]) = (-3, -1)%Z /\
+  forallb (fun kc => ValueTP1.vx_op_same (fst kc) (snd kc)) [(1, 0); (2, 1); (3, 2); (2, 3)] = true /\
+  ValueTP1.vx_tp1_S 1 = Some (-164)%Z /\ ValueTP1.vx_tp1_D 2 1 = Some (-164)%Z /\
+  ValueTP1.vx_tp1_S 2 = Some 2428%Z /\ ValueTP1.vx_tp1_D 1 2 = Some 2428%Z.
+Proof. exact ValueTP1.tp1_example_numbers. Qed.
+Print Assumptions C16_example_tp1_numbers.
+
+(* the hypotheses of C16_tp1_value are satisfiable: the theorem applies to the example (k = 3) on each of its nodes *)
+Example C16_example_tp1_applies : forall c, In c [0; 1; 2; 3] -> exists D' gD gS,
+  ValueTP1.ttndo_tp_apply Contr.code_maps (Value.vx_d 3) [(c, [ValueTP1.vx_opdim c; ValueTP1.vx_opdim c])] = Some D' /\
+  ValueTP1.ttndo_tp_expectation Contr.code_maps (Value.vx_d 3) [(c, [ValueTP1.vx_opdim c; ValueTP1.vx_opdim c])] = Some gD /\
+  TensorProd.tp_expectation 1000 100 Value.vx_s [(c, [ValueTP1.vx_opdim c; ValueTP1.vx_opdim c])] = Some gS /\
+  forall rho rho',
+    TensorProdBridge.gvalue Z 0%Z 1%Z Z.add Z.mul (Sem.atom_wires D') (Store.wdim D') Value.vx_tblD gD rho
+    = TensorProdBridge.gvalue Z 0%Z 1%Z Z.add Z.mul (Value.tp1_wiresS 1000 100 Value.vx_s c) (Value.tp1_dimS 1000 100 Value.vx_s c) Value.vx_tblS gS rho'.
+Proof. exact ValueTP1.tp1_example_thm. Qed.
+Print Assumptions C16_example_tp1_applies.
